@@ -112,6 +112,9 @@ class Repo:
             m = Module(name, p, str(rel), src, tree)
             self.modules[name] = m
         self.renames_undone: List[str] = []
+        if not os.environ.get("SA_NO_NORM"):
+            from .callform import canonical_calls          # N22: one argument form for calls to the package's own callables
+            canonical_calls({m.name: m.tree for m in self.modules.values()})
         if not os.environ.get("SA_NO_ALPHA"):
             from .alpha import load_reference, undo_pure_renames
             ref = load_reference()
@@ -119,6 +122,8 @@ class Repo:
             if specials:
                 from .align import recover_attribute_renames, recover_module_name_renames
                 trees = {m.name: m.tree for m in self.modules.values()}
+                from .imports_norm import undo_alias_renames
+                undo_alias_renames(trees, specials.get("__imports__", {}), self.renames_undone)
                 for a, b in sorted(recover_attribute_renames(trees, specials.get("__attrs__", {})).items()):
                     self.renames_undone.append(f"attribute .{a} -> .{b}")
                 for a, b in sorted(recover_module_name_renames(trees, specials.get("__modnames__", {})).items()):
